@@ -74,11 +74,98 @@ func collectFacts(p *packages.Package, fd *ast.FuncDecl, name string, m map[stri
 			}
 			return true
 		})
+		closeGuarded := false
+		ast.Inspect(fd.Body, func(n ast.Node) bool {
+			if is, ok := n.(*ast.IfStmt); ok && containsIdent(is.Cond, "errHijacked") {
+				ast.Inspect(is.Body, func(y ast.Node) bool {
+					if c, ok := y.(*ast.CallExpr); ok {
+						if se, ok := c.Fun.(*ast.SelectorExpr); ok && se.Sel.Name == "Close" {
+							closeGuarded = true
+						}
+					}
+					return true
+				})
+			}
+			return true
+		})
 		key := strings.ReplaceAll(strings.TrimPrefix(name, "layer4."), ".", "_")
+		boolFact(m, key+"_closes_conn_unless_hijacked", closeGuarded)
 		boolFact(m, key+"_bare_defer_put", bare)
 		boolFact(m, key+"_put_guarded_by_hijack", guarded)
 		boolFact(m, key+"_any_put", anyPut)
 		boolFact(m, key+"_mentions_errHijacked", containsIdent(fd.Body, "errHijacked"))
+	case "layer4.listener.loop":
+		// close(l.connChan) only after l.wg.Wait() in the same function literal; connChan drained after close(l.done)
+		closeAfterWait, closeElsewhere, drains, closesDone := false, false, false, false
+		ast.Inspect(fd.Body, func(n ast.Node) bool {
+			switch t := n.(type) {
+			case *ast.FuncLit:
+				sawWait := false
+				for _, st := range t.Body.List {
+					if es, ok := st.(*ast.ExprStmt); ok {
+						if c, ok := es.X.(*ast.CallExpr); ok {
+							if se, ok := c.Fun.(*ast.SelectorExpr); ok && se.Sel.Name == "Wait" {
+								sawWait = true
+							}
+							if id, ok := c.Fun.(*ast.Ident); ok && id.Name == "close" && containsIdent(c, "connChan") {
+								if sawWait {
+									closeAfterWait = true
+								} else {
+									closeElsewhere = true
+								}
+							}
+						}
+					}
+				}
+				return false
+			case *ast.CallExpr:
+				if id, ok := t.Fun.(*ast.Ident); ok && id.Name == "close" {
+					if containsIdent(t, "connChan") {
+						closeElsewhere = true
+					}
+					if containsIdent(t, "done") {
+						closesDone = true
+					}
+				}
+			case *ast.RangeStmt:
+				if containsIdent(t.X, "connChan") && closesDone {
+					ast.Inspect(t.Body, func(y ast.Node) bool {
+						if c, ok := y.(*ast.CallExpr); ok {
+							if se, ok := c.Fun.(*ast.SelectorExpr); ok && se.Sel.Name == "Close" {
+								drains = true
+							}
+						}
+						return true
+					})
+				}
+			}
+			return true
+		})
+		boolFact(m, "listener_loop_closes_connChan_only_after_wait", closeAfterWait && !closeElsewhere)
+		boolFact(m, "listener_loop_closes_done_then_drains", closesDone && drains)
+	case "layer4.listener.pipeConnection":
+		all, any := true, false
+		ast.Inspect(fd.Body, func(n ast.Node) bool {
+			if r, ok := n.(*ast.ReturnStmt); ok {
+				any = true
+				if len(r.Results) != 1 || !containsIdent(r.Results[0], "errHijacked") {
+					all = false
+				}
+			}
+			return true
+		})
+		boolFact(m, "pipeConnection_always_returns_errHijacked", all && any)
+	case "layer4.listener.Accept":
+		sel := false
+		ast.Inspect(fd.Body, func(n ast.Node) bool {
+			if s, ok := n.(*ast.SelectStmt); ok {
+				if containsIdent(s, "connChan") && containsIdent(s, "done") {
+					sel = true
+				}
+			}
+			return true
+		})
+		boolFact(m, "listener_Accept_selects_connChan_and_done", sel)
 	case "layer4.packetConn.Close":
 		closes := false
 		ast.Inspect(fd.Body, func(n ast.Node) bool {
